@@ -1,67 +1,101 @@
 ---- MODULE TraceLinAlg ----
-(* Trace specification for the ledger (exploration) part of C12.  harness/c12_trace.c generates matrices of sizes     *)
-(* 1..12 with condition number <= 1e6 (SPD, symmetric indefinite, diagonal, permutation, zero leading minors,          *)
-(* triangular, Toeplitz, general, small integer; rectangular in both orientations), calls each routine in a child    *)
-(* process and logs the residual of the routine's defining equation in units of 1e-12 (saturating at 2e9):           *)
+(* Trace specification for the ledger part of C12.  harness/c12_trace.c runs a stratified plan of matrices of sizes   *)
+(* 1..12 with condition number <= 1e6: every class (SPD, symmetric indefinite, diagonal, permutation, zero leading    *)
+(* minors, triangular, Toeplitz, general, small integer, graded, symmetric permutation, repeated eigenvalues, large    *)
+(* common offset, non-representable entries, integer permuted unit-triangular) at EVERY size 1..12 and at whole-matrix *)
+(* scales 2^k, 1e-6, 1e6; every rectangular shape m > n <= 12 and its transpose; "history" blocks in which one routine *)
+(* is called ten times in ONE process on changing sizes / shapes / magnitudes into the SAME output objects.  Each call *)
+(* logs the residual of the routine's defining equation in units of 1e-12 (saturating at 2e9):                         *)
 (*   Inv      max|A X - I|                         MatrixInversion, MatrixLUInversion                                *)
 (*   Det      |det - prod pivots(dgetrf)| / prod_i |row_i|_1 ;  DetMul the same for det(AB) - det(A)det(B)            *)
 (*   Solve    backward |Ax-b|/(|A||x|+|b|) and forward |x-x0|/|x0|          SolveLSE                                 *)
-(*   Ols      |X'(X beta - y)| / (|X|(|X||beta|+|y|))                        OrdinaryLeastSquares                     *)
-(*   Penrose  the four Penrose residuals                                   MatrixMoorePenrosePseudoinverse          *)
+(*   Ols      |X'(X beta - y)| / (|X|(|X||beta|+|y|))                        OrdinaryLeastSquares (m >= n)            *)
+(*   Penrose  the four Penrose residuals                                   MatrixMoorePenrosePseudoinverse (m >= n) *)
+(*            (routine = MatrixPseudoinversion, the SVD-based variant of the anchors: same action, EXTRA finding only)  *)
 (*   Eig      max_k |A v_k - lambda_k v_k| / (|A||v_k|), v_k # 0            EVectEval on symmetric A                  *)
-(*   Svd      shapes multiply, sigma >= 0, |U S VT - A|/|A|                 SVD, SVDlapack (square, tall, wide)      *)
-(* Bounds (TolAlg = 1e-8 as in DESIGN.md) are relative to |A| and scaled by the logged condition number where the    *)
-(* property says "well-conditioned": a forward error cannot be better than eps * cond.  Integer inputs additionally  *)
-(* log their integer results, which TLC checks EXACTLY with the operators of LinAlg.tla (Lap, MulI).                   *)
+(*   Svd      shapes multiply, sigma >= 0, |U S VT - A|/|A|, diag(S) = the singular values of A (any order, oracle     *)
+(*            dgesvd), off-diagonal of S = 0                               SVD, SVDlapack (square, tall, wide)      *)
+(* Bounds (TolAlg = 1e-8 as in DESIGN.md) are relative to |A| - hence the same at every scale (K4) - and scaled by the *)
+(* logged condition number where the property says "well-conditioned": a forward error cannot be better than           *)
+(* eps * cond.  Integer inputs additionally log their integer results, which TLC checks EXACTLY with the operators of  *)
+(* LinAlg.tla: InvInt (MulI), DetInt (BDet = signed product of the pivots of the fraction-free LU, and Lap for n <= 4),  *)
+(* DetMulInt (det(AB) = det(A) det(B) with all three determinants recomputed by BDet).                                 *)
 (* A Crash event (sanitizer abort, signal, watchdog in the child) matches no action: the trace is rejected there.     *)
+(* Layers: Prop = what the property states; Impl (PropOnly = FALSE) adds what a faithful SVD / eigen-solver also does: *)
+(* economy shapes, orthonormal factors, a complete set of eigenvalues (sum = trace) - a mismatch there is SPEC-DRIFT.  *)
 EXTENDS LinAlg, TraceBase
 CONSTANT PropOnly
-VARIABLES l, cond, shape
-tvars == <<A, fam, l, cond, shape>>
+VARIABLES l, cond, shape, inq
+tvars == <<A, fam, l, cond, shape, inq>>
 Ev == Tr[l]
 Step == l' = l + 1
-Keep == UNCHANGED <<A, fam, cond, shape>>
+Keep == UNCHANGED <<A, fam, cond, shape, inq>>
 TolAlg == 10000                                              \* 1e-8 in units of 1e-12
 Max(a, b) == IF a > b THEN a ELSE b
 Min(a, b) == IF a < b THEN a ELSE b
 BoundCond(k) == TolAlg * Max(1, cond \div k)                 \* cond <= 1e6, k >= 100: at most 1e8
 BoundCond2 == TolAlg * Max(1, (Min(cond, 1000) * Min(cond, 1000)) \div 10000)   \* normal equations square the condition number
 
-TInit == l = 1 /\ A = <<>> /\ fam = "" /\ cond = 1 /\ shape = <<0, 0>>
-TReset == /\ l <= Len(Tr) /\ Ev.e = "Reset" /\ Step /\ A' = <<>> /\ fam' = "" /\ cond' = 1 /\ shape' = <<0, 0>>
+ShapeName(m, n) == IF m = n THEN "square" ELSE IF m > n THEN "rect-tall" ELSE "rect-wide"
+\* the quantifier of C12 on what the harness logs about an input: sizes 1..12, condition number (ceiling) 1..1e6
+InQuantifier(ev) == ev.cond >= 1 /\ ev.cond <= 1000000 /\ ev.m \in 1..12 /\ ev.n \in 1..12
+\* least squares / pseudo-inverse through the normal equations: full column rank, cond^2 <= 1e6
+NormalEqOK == shape[1] >= shape[2] /\ cond <= 1000 /\ inq = 1
+TInit == l = 1 /\ A = <<>> /\ fam = "" /\ cond = 1 /\ shape = <<0, 0>> /\ inq = 0
+TStart == /\ l <= Len(Tr) /\ Ev.e = "Start" /\ Step /\ Keep
+TReset == /\ l <= Len(Tr) /\ Ev.e = "Reset" /\ Step /\ A' = <<>> /\ fam' = "" /\ cond' = 1 /\ shape' = <<0, 0>> /\ inq' = 0
 TEnd == /\ l <= Len(Tr) /\ Ev.e = "End" /\ Step /\ Keep
+\* q = 1: an input inside the quantifier.  q = 0: a rank-deficient input for the SVD ("every matrix" in the statement, but cond = inf is
+\* outside the quantifier): judged by the same TSvd, a rejection is reported as an EXTRA finding by the runner
 TMat == /\ l <= Len(Tr) /\ Ev.e = "Mat" /\ Step
-        /\ Ev.cond >= 1 /\ Ev.cond <= 1000000 /\ Ev.m \in 1..12 /\ Ev.n \in 1..12       \* inside the quantifier
-        /\ A' = <<>> /\ fam' = Ev.class /\ cond' = Ev.cond /\ shape' = <<Ev.m, Ev.n>>
+        /\ Ev.m \in 1..12 /\ Ev.n \in 1..12 /\ Ev.shape = ShapeName(Ev.m, Ev.n)
+        /\ (Ev.q = 1 => InQuantifier(Ev)) /\ (Ev.q = 0 => Ev.cond = 0)
+        /\ A' = (IF Ev.isint = 1 THEN Ev.A ELSE <<>>) /\ fam' = Ev.class /\ cond' = (IF Ev.q = 1 THEN Ev.cond ELSE 1) /\ shape' = <<Ev.m, Ev.n>> /\ inq' = Ev.q
 
-TInv == /\ l <= Len(Tr) /\ Ev.e = "Inv" /\ Step /\ Keep
+TInv == /\ l <= Len(Tr) /\ Ev.e = "Inv" /\ Step /\ Keep /\ inq = 1 /\ shape[1] = shape[2]
         /\ Ev.r <= BoundCond(100)                        \* surveyed worst 4e-10 at cond 5e4 (pivoted Gauss-Jordan), 1e-11 (LAPACK)
 \* integer input with integer inverse (permutations, unimodular matrices): exact check with the model's integer product
-TInvInt == /\ l <= Len(Tr) /\ Ev.e = "InvInt" /\ Step /\ UNCHANGED <<fam, cond, shape>> /\ A' = Ev.A
+\* (the integer events repeat the input: it must be the matrix the Mat event announced)
+TInvInt == /\ l <= Len(Tr) /\ Ev.e = "InvInt" /\ Step /\ Keep /\ Ev.A = A
            /\ MulI(Ev.A, Ev.inv) = IdI(Len(Ev.A))
-TDet == /\ l <= Len(Tr) /\ Ev.e = "Det" /\ Step /\ Keep
+TDet == /\ l <= Len(Tr) /\ Ev.e = "Det" /\ Step /\ Keep /\ inq = 1 /\ shape[1] = shape[2] /\ shape[1] <= 8
         /\ Ev.r <= TolAlg
-TDetInt == /\ l <= Len(Tr) /\ Ev.e = "DetInt" /\ Step /\ UNCHANGED <<fam, cond, shape>> /\ A' = Ev.A
-           /\ Ev.det = Lap(Ev.A, Ev.n)
-TDetMul == /\ l <= Len(Tr) /\ Ev.e = "DetMul" /\ Step /\ Keep
+\* integer input (n <= 8): the determinant is EXACTLY the signed product of the pivots of the fraction-free LU factorisation computed
+\* here by TLC (BDet), and for n <= 4 also the Laplace expansion; ok = 0: the routine did not even return an integer
+TDetInt == /\ l <= Len(Tr) /\ Ev.e = "DetInt" /\ Step /\ Keep /\ Ev.A = A
+           /\ Ev.ok = 1 /\ Len(Ev.A) = Ev.n
+           /\ Ev.det = BDet(Ev.A)
+           /\ (Ev.n <= 4 => Ev.det = Lap(Ev.A, Ev.n))
+\* multiplicativity, exactly: the three determinants the routine returned for A, B and A B (A B formed by the library's product) are
+\* the exact ones and dp = da * db
+TDetMulInt == /\ l <= Len(Tr) /\ Ev.e = "DetMulInt" /\ Step /\ Keep /\ Ev.A = A
+              /\ Ev.ok = 1
+              /\ Ev.da = BDet(Ev.A) /\ Ev.db = BDet(Ev.B) /\ Ev.dp = BDet(MulI(Ev.A, Ev.B))
+              /\ Ev.dp = Ev.da * Ev.db
+TDetMul == /\ l <= Len(Tr) /\ Ev.e = "DetMul" /\ Step /\ Keep /\ inq = 1 /\ shape[1] = shape[2] /\ shape[1] <= 8
            /\ Ev.r <= TolAlg
-TSolve == /\ l <= Len(Tr) /\ Ev.e = "Solve" /\ Step /\ Keep
+TSolve == /\ l <= Len(Tr) /\ Ev.e = "Solve" /\ Step /\ Keep /\ inq = 1 /\ shape[1] = shape[2]
           /\ Ev.rb <= TolAlg
           /\ Ev.rf <= BoundCond(100)                    \* forward error: surveyed worst 4e-11 at cond 1e5
-TOls == /\ l <= Len(Tr) /\ Ev.e = "Ols" /\ Step /\ Keep
+TOls == /\ l <= Len(Tr) /\ Ev.e = "Ols" /\ Step /\ Keep /\ NormalEqOK
         /\ Ev.r <= BoundCond2
-TPenrose == /\ l <= Len(Tr) /\ Ev.e = "Penrose" /\ Step /\ Keep
+TPenrose == /\ l <= Len(Tr) /\ Ev.e = "Penrose" /\ Step /\ Keep /\ NormalEqOK
             /\ Ev.r1 <= BoundCond2 /\ Ev.r2 <= BoundCond2 /\ Ev.r3 <= BoundCond2 /\ Ev.r4 <= BoundCond2
-TEig == /\ l <= Len(Tr) /\ Ev.e = "Eig" /\ Step /\ Keep
+\* Prop: n pairs, every v_k # 0 and A v_k = lambda_k v_k PAIRWISE (nothing about uniqueness or orthogonality: repeated eigenvalues are
+\* admitted).  Impl: the eigenvalues are a complete set (their sum is the trace)
+TEig == /\ l <= Len(Tr) /\ Ev.e = "Eig" /\ Step /\ Keep /\ inq = 1 /\ shape[1] = shape[2]
         /\ Ev.nz = 1
         /\ Ev.r <= TolAlg
-\* Prop: factors multiply back, singular values non-negative.  Impl: the economy shapes m x k, k x k, k x n with k = min(m, n)
+        /\ (PropOnly \/ Ev.tr <= TolAlg)
+\* Prop: factors multiply back, singular values non-negative and they ARE the singular values of the input (diagonal of S in any order
+\* against the oracle, nothing off the diagonal).  Impl: the economy shapes m x k, k x k, k x n with k = min(m, n), orthonormal U / VT
 TSvd == /\ l <= Len(Tr) /\ Ev.e = "Svd" /\ Step /\ Keep
         /\ Ev.shp = 1 /\ Ev.sig = 1
         /\ Ev.recon <= TolAlg
-        /\ (PropOnly \/ LET k == Min(shape[1], shape[2]) IN Ev.dims = <<shape[1], k, k, k, k, shape[2]>>)
+        /\ Ev.sv <= TolAlg
+        /\ (PropOnly \/ (Ev.orth <= TolAlg /\ LET k == Min(shape[1], shape[2]) IN Ev.dims = <<shape[1], k, k, k, k, shape[2]>>))
 
-TNext == TReset \/ TEnd \/ TMat \/ TInv \/ TInvInt \/ TDet \/ TDetInt \/ TDetMul \/ TSolve \/ TOls \/ TPenrose \/ TEig \/ TSvd
+TNext == TStart \/ TReset \/ TEnd \/ TMat \/ TInv \/ TInvInt \/ TDet \/ TDetInt \/ TDetMul \/ TDetMulInt \/ TSolve \/ TOls \/ TPenrose \/ TEig \/ TSvd
 TSpec == TInit /\ [][TNext]_tvars
 TraceAccepted == Accepted
 Diag == ShowCursor(l)
